@@ -32,6 +32,7 @@ type Item struct {
 	Sig      string   // lemma: "[A, B any](m fp.Option[A], …)"
 	Props    []string
 	Inst     string // explicit type arguments for the driver
+	MoreInst []string // further instantiations (summary predicates only)
 	Clauses  []Clause
 	Imports  []string // extra imports, raw spec text
 	Trace    bool
@@ -429,7 +430,11 @@ func ParseContractFile(repo, rel string) (*ContractFile, error) {
 				case "prop":
 					it.Props = append(it.Props, strings.Fields(rest)...)
 				case "inst":
-					it.Inst = rest
+					if it.Inst == "" {
+						it.Inst = rest
+					} else {
+						it.MoreInst = append(it.MoreInst, rest)
+					}
 				case "requires", "ensures":
 					it.Clauses = append(it.Clauses, Clause{Kind: kw, Expr: rest, Line: rl.line})
 				case "tag":
